@@ -22,6 +22,11 @@ RULE = ("unit expressions are generated from structured item lists (prefix, tabl
         "Quantity object (scalar or array, source units of factor 1 favoured: value(v) must not change it, to(v) changes it, "
         "reads) and on ONE long-lived Unit() instance (an attribute is converted / used in arithmetic, then the same attribute is used again "
         "as target or source; expected values are history-free x*f(u)/f(v)); "
+        "bare numbers that are RESULTS (units cancelling symbol by symbol through a/b, a*b, a**0, parsing m*m-1 or m/m, a zero "
+        "exponent; also other-prefix ratios, model-only) converted to rad/mrad/other targets and passed to np.sin; histories "
+        "across UnitEnvironment scopes (2-3 successive environments defining the same custom symbols with other magnitudes / "
+        "dimensions / prefixes, conversions inside each judged against the definitions current in the table); 30% of the "
+        "accepted conversions repeated with an uncertainty attached (same value required); "
         "the documented examples; values from {0, +-1, +-pi, 1e+-30, k*5e-324, random, arrays}. "
         "non-trivial = conversion between two different expressions; distinct = (u, v, value) text")
 ASSUMPTIONS = [
@@ -279,6 +284,31 @@ def make_target(cat, case):
     raise ValueError(form)
 
 
+def build_source(case, **kw):
+    """the source quantity: `Quantity(x, u)`, or — for bare numbers that are RESULTS — the arithmetic /
+    parsing recipe that makes every unit cancel symbol by symbol"""
+    from scinumtools.units import Quantity
+    x = case["x"]
+    r = case.get("recipe")
+
+    def xx(v):
+        return list(v) if isinstance(v, list) else v
+    if not r:
+        return Quantity(xx(x), case["eu"], **kw)
+    k = r["kind"]
+    if k == "parse":
+        return Quantity(xx(x), r["expr"])
+    if k == "div":
+        return Quantity(xx(r["a"]), r["expr"]) / Quantity(r["b"], r["expr2"])
+    if k == "mul":
+        return Quantity(xx(r["a"]), r["expr"]) * Quantity(r["b"], r["expr2"])
+    if k == "pow0":
+        return Quantity(xx(r["a"]), r["expr"]) ** 0
+    if k == "dict":
+        return Quantity(xx(x), {r["unitid"]: 0})
+    raise ValueError(k)
+
+
 def run_impl(case, cat=None):
     import numpy as np
     from scinumtools.units import Quantity
@@ -289,7 +319,7 @@ def run_impl(case, cat=None):
     with warnings.catch_warnings(), np.errstate(all="ignore"):
         warnings.simplefilter("ignore")
         try:
-            q = Quantity(list(x) if isinstance(x, list) else x, case["eu"])
+            q = build_source(case)
         except Exception as e:
             return {"init": "err:%s" % type(e).__name__}
         out["before"] = U.snapshot(q)
@@ -332,9 +362,10 @@ def judge(ctx, cat, case, imp, res, report=True):
     (kind, signature, text)."""
     found = []
     x = case["x"]
+    eu = case.get("src") or case["eu"]
     form = case.get("form", "str")
     qform = form in QUANTITY_FORMS
-    replay = {"stream": case["stream"], "x": x, "u": case["eu"], "v": case["ev"],
+    replay = {"stream": case["stream"], "x": x, "u": case["eu"], "src": case.get("src"), "recipe": case.get("recipe"), "env": case.get("env"), "v": case["ev"],
               "iu": case["iu"], "iv": case["iv"], "form": form, "tm": case.get("tm")}
     frac = any(d != 1 for _, _, (n, d) in case["iu"] + case["iv"])
     rtol = 1e-9 if frac else 1e-12
@@ -377,7 +408,7 @@ def judge(ctx, cat, case, imp, res, report=True):
         found.append(("disagreement", case["stream"], det))
     # ---------- impl vs spec (in-domain only)
     # a dimensionless compound (m/km) that Quantity.__init__ folded completely into a bare number
-    u_nodim_nonempty = bool(case["iu"]) and all(d == 0 for d in cat.dims_of_items(case["iu"])) and \
+    u_nodim_nonempty = any(n != 0 for _, _, (n, d) in case["iu"]) and all(d == 0 for d in cat.dims_of_items(case["iu"])) and \
         res["init"]["units"] == [] and imp["units0"] == []
     v_folded = qform and all(d == 0 for d in cat.dims_of_items(case["iv"])) and mto is not None and mto["units"] == [] \
         and bool(case["iv"])
@@ -391,11 +422,11 @@ def judge(ctx, cat, case, imp, res, report=True):
         elif i_ok or imp["to"]:
             found.append(("violation", "refuse:accepted" + sfx,
                           "conversion between different dimensions %s -> %s (%s) is not refused: value()=%s, to() ok=%s"
-                          % (case["eu"], case["ev"], form, imp["value"], imp["to"])))
+                          % (eu, case["ev"], form, imp["value"], imp["to"])))
         elif imp["after"] != imp["before"] or imp["mid"] != imp["before"]:
             found.append(("violation", "refuse:state-changed" + sfx,
                           "refused conversion %s -> %s (target given as %s%s) changed the quantity: %r -> %r"
-                          % (case["eu"], case["ev"], form, "" if not qform else " of magnitude %r" % case["tm"],
+                          % (eu, case["ev"], form, "" if not qform else " of magnitude %r" % case["tm"],
                              imp["before"], imp["after"])))
     else:
         if kind == "reciprocal" and any(v == 0 for v in xs):
@@ -405,7 +436,7 @@ def judge(ctx, cat, case, imp, res, report=True):
         elif (not qform and not i_ok) or not imp["to"]:
             found.append(("violation", "%s:refused%s" % (kind, sfx),
                           "%s conversion %s -> %s (%s) of %r is refused (%s)" %
-                          (kind, case["eu"], case["ev"], form, x, imp.get("value_exc") or imp.get("to_exc"))))
+                          (kind, eu, case["ev"], form, x, imp.get("value_exc") or imp.get("to_exc"))))
         elif not numeric_ok:
             ctx.count("unjudged.float-range")
         else:
@@ -413,16 +444,16 @@ def judge(ctx, cat, case, imp, res, report=True):
             if not qform and not U.close(imp["value"], want_v, rtol):
                 found.append(("violation", "%s:value" % kind,
                               "%s -> %s (%s) of %r: value() gives %r, the property prescribes %r" %
-                              (case["eu"], case["ev"], form, x, imp["value"], want_v)))
+                              (eu, case["ev"], form, x, imp["value"], want_v)))
             elif not U.close(imp["after_val"], sval, rtol):
                 found.append(("violation", "%s:to-value%s" % (kind, sfx),
                               "%s -> %s of %r with the target given as %s%s: to() leaves %r, the property prescribes %r" %
-                              (case["eu"], case["ev"], x, form, "" if not qform else " of magnitude %r" % case["tm"],
+                              (eu, case["ev"], x, form, "" if not qform else " of magnitude %r" % case["tm"],
                                imp["after_val"], sval)))
             elif imp["after"][1] != imp["target_expr"]:
                 found.append(("violation", "%s:to-units%s" % (kind, sfx),
                               "%s -> %s (%s): after to() the quantity reports units %r" %
-                              (case["eu"], case["ev"], form, imp["after"][1])))
+                              (eu, case["ev"], form, imp["after"][1])))
             elif imp["mid"] != imp["before"]:
                 found.append(("violation", "value:state-changed",
                               "value(%s) changed the quantity %r -> %r" % (case["ev"], imp["before"], imp["mid"])))
@@ -442,6 +473,22 @@ def conv_req(cat, c):
     return r
 
 
+def uncertain_variant(cat, c, rng):
+    """the same conversion with an absolute or relative uncertainty on the operand: (value(), value after to())"""
+    import numpy as np
+    xs = [abs(v) for v in U.as_list(c["x"])]
+    kw = {"abse": (max(xs) or 1.0) * rng.choice([0.5, 0.1, 1e-3])} if rng.random() < 0.6 or min(xs) == 0 else {"rele": rng.choice([50, 10, 1])}
+    with warnings.catch_warnings(), np.errstate(all="ignore"):
+        warnings.simplefilter("ignore")
+        try:
+            v = U.as_list(build_source(c, **kw).value(make_target(cat, c)))
+            q = build_source(c, **kw)
+            q.to(make_target(cat, c))
+            return v, U.as_list(q.magnitude.value)
+        except Exception:
+            return "err"
+
+
 def run_cases(ctx, cat, cases):
     usable = []
     for c in cases:
@@ -454,7 +501,7 @@ def run_cases(ctx, cat, cases):
     res = ctx.driver.ask_many(reqs)
     for c, r in zip(usable, res):
         ctx.count("stream." + c["stream"])
-        canon = "%s|%s|%r|%s|%r" % (c["eu"], c["ev"], c["x"], c.get("form"), c.get("tm"))
+        canon = "%s|%s|%r|%s|%r" % (c.get("src") or c["eu"], c["ev"], c["x"], c.get("form"), c.get("tm"))
         ctx.case(canon, c["eu"] != c["ev"], {"x": c["x"], "u": c["eu"], "v": c["ev"]} if c["stream"] != "corpus" else None)
         if "ok" not in r:
             ctx.disagreement(c["stream"], {"x": c["x"], "u": c["eu"], "v": c["ev"]}, "driver error %s" % r)
@@ -467,7 +514,18 @@ def run_cases(ctx, cat, cases):
         ctx.count("form." + c.get("form", "str"))
         ctx.count("spec." + r["ok"]["spec"]["kind"])
         ctx.count("value." + ("array" if isinstance(c["x"], list) else "scalar"))
-        judge(ctx, cat, c, imp, r["ok"])
+        found = judge(ctx, cat, c, imp, r["ok"])
+        # the value of a conversion does not depend on whether an uncertainty is attached
+        if not found and not c.get("recipe") and c["eu"] is not None and imp["value"] not in ("err", "n/a") \
+                and U.in_float_range(imp["value"]) and ctx.rng.random() < 0.3:
+            ctx.count("variant.with-uncertainty")
+            got = uncertain_variant(cat, c, ctx.rng)
+            if got == "err" or not U.close(got[0], imp["value"], 1e-12) or not U.close(got[1], imp["after_val"], 1e-12):
+                ctx.violation("value-depends-on-uncertainty",
+                              "%s -> %s of %r: with an uncertainty attached value()/to() give %r, without it %r" %
+                              (c["eu"], c["ev"], c["x"], got, (imp["value"], imp["after_val"])),
+                              {"stream": c["stream"], "x": c["x"], "u": c["eu"], "v": c["ev"], "iu": c["iu"], "iv": c["iv"],
+                               "form": c.get("form"), "tm": c.get("tm"), "with_uncertainty": True})
 
 
 # ------------------------------------------------------------------ round trip / path independence on the real code
@@ -512,6 +570,197 @@ def triple_stream(ctx, cat, count):
         elif not U.close(back, U.as_list(x), rtol):
             ctx.violation("path:roundtrip", "%r %s -> %s -> %s returns %r" % (x, eu, ev, eu, back),
                           {"stream": "triple", "x": x, "u": eu, "w": ew, "v": ev})
+
+
+# ------------------------------------------------------------------ bare numbers that are results
+NUMBER_TARGETS = [
+    [(None, "rad", (1, 1))], [(None, "rad", (1, 1))], [("m", "rad", (1, 1))], [(None, "rad", (2, 1))],
+    [(None, "rad", (-1, 1))], [(None, "deg", (1, 1))], [(None, "sr", (1, 1))], [(None, "%", (1, 1))],
+    [(None, "m", (1, 1))], [(None, "rad", (3, 3))], [(None, "PR", (1, 1))],
+]
+
+
+def gen_result_numbers(cat, rng, count):
+    """bare numbers produced by units cancelling exactly symbol by symbol — by arithmetic (a/b, a*b, a**0),
+    by parsing (`m*m-1`, `m/m`) or by a zero exponent — then converted like any bare number"""
+    out = []
+    dimensional = [t for t in cat.linear if any(d != 0 for d in cat.dimkey(t))]
+    for _ in range(count):
+        s_ = rng.choice(dimensional)
+        p, e = pick_prefix(cat, rng, s_), rng.choice([(1, 1), (1, 1), (2, 1), (-1, 1), (1, 2)])
+        it = [(p, s_, e)]
+        inv = [(p, s_, (-e[0], e[1]))]
+        expr, expr_inv = U.render_items(it), U.render_items(inv)
+        a = pick_value(rng)
+        b = rng.choice([2.0, 4.0, 0.5, -8.0, 200.0])
+        kind = rng.choice(["parse", "parse-div", "div", "div", "mul", "pow0", "dict", "div-prefix"])
+        zero = [(p, s_, (0, e[1] * e[1]))]
+        arr = isinstance(a, list)
+        if kind == "parse":
+            case = {"x": a, "iu": zero, "recipe": {"kind": "parse", "expr": expr + "*" + expr_inv}, "src": "Quantity(x,'%s*%s')" % (expr, expr_inv)}
+        elif kind == "parse-div":
+            case = {"x": a, "iu": zero, "recipe": {"kind": "parse", "expr": expr + "/" + expr}, "src": "Quantity(x,'%s/%s')" % (expr, expr)}
+        elif kind == "div":
+            x = [v / b for v in a] if arr else a / b
+            case = {"x": x, "iu": zero, "recipe": {"kind": "div", "a": a, "b": b, "expr": expr, "expr2": expr},
+                    "src": "Quantity(%r,'%s')/Quantity(%r,'%s')" % (a, expr, b, expr)}
+        elif kind == "mul":
+            x = [v * b for v in a] if arr else a * b
+            case = {"x": x, "iu": zero, "recipe": {"kind": "mul", "a": a, "b": b, "expr": expr, "expr2": expr_inv},
+                    "src": "Quantity(%r,'%s')*Quantity(%r,'%s')" % (a, expr, b, expr_inv)}
+        elif kind == "pow0":
+            if (arr and any(v == 0 for v in a)) or a == 0:
+                continue
+            x = [1.0 for _ in a] if arr else 1.0
+            case = {"x": x, "iu": zero, "recipe": {"kind": "pow0", "a": a, "expr": expr}, "src": "Quantity(%r,'%s')**0" % (a, expr)}
+        elif kind == "dict":
+            case = {"x": a, "iu": zero, "recipe": {"kind": "dict", "unitid": cat.unitid(p, s_)}, "src": "Quantity(x,{'%s':0})" % cat.unitid(p, s_)}
+        else:   # other prefix on the right: the ratio of the factors is folded into the number (compared with the model only)
+            alts = [q for q in cat.units[s_][2] if q != p]
+            if not alts:
+                continue
+            p2 = rng.choice(alts)
+            expr2 = U.render_items([(p2, s_, e)])
+            x = [v / b for v in a] if arr else a / b
+            case = {"x": x, "iu": [(p, s_, e), (p2, s_, (-e[0], e[1]))],
+                    "recipe": {"kind": "div", "a": a, "b": b, "expr": expr, "expr2": expr2},
+                    "src": "Quantity(%r,'%s')/Quantity(%r,'%s')" % (a, expr, b, expr2)}
+        iv = rng.choice(NUMBER_TARGETS)
+        form = rng.choice(["str", "str", "str", "baseunits", "unitattr", "q1"])
+        case.update({"stream": "result-number", "iv": iv, "eu": None, "ev": U.render_items(iv), "form": form,
+                     "tm": 1.0 if form in QUANTITY_FORMS else None})
+        out.append(case)
+    return out
+
+
+def result_number_functions(ctx, cat, cases):
+    """np.sin & co. convert their argument to rad: a bare number that is a result must be accepted"""
+    import numpy as np
+    for c in cases:
+        if any(n != 0 for _, _, (n, d) in c["iu"]) or isinstance(c["x"], list) or not (abs(c["x"]) < 1e6):
+            continue
+        ctx.count("stream.result-number-sin")
+        with warnings.catch_warnings(), np.errstate(all="ignore"):
+            warnings.simplefilter("ignore")
+            try:
+                q = build_source(c)
+                if q.units() is not None:
+                    continue
+                got = float(np.sin(q).value())
+            except Exception as e:
+                got = "raises %r" % (e,)
+        want = math.sin(c["x"])
+        if isinstance(got, str) or not U.close(got, want, 1e-12, 1e-15):
+            ctx.violation("numberToRad:sin", "np.sin(%s) %s, sin of the bare number %r is %r" % (c["src"], got, c["x"], want),
+                          {"stream": "result-number-sin", "src": c["src"], "recipe": c["recipe"], "x": c["x"]})
+
+
+# ------------------------------------------------------------------ histories across unit environments
+ENV_SYMBOLS = ["ulen", "utim", "umas", "uqx"]
+
+
+def gen_env_definition(cat, rng):
+    """a custom unit: given as a Quantity or as magnitude + dimensions, with or without prefixes"""
+    from scinumtools.units import Quantity
+    if rng.random() < 0.5:
+        items = random_items(cat, rng, 2)
+        items = [(p, s_, (n, 1)) for p, s_, (n, d) in items]
+        m = rng.choice([1.0, 2.5, 1e3, 3.0857e16, 1e-7])
+        return ("quantity", m, U.render_items(items), None)
+    s_ = rng.choice(cat.linear)
+    dims = [n if d == 1 else (n, d) for n, d in cat.units[s_][1]]
+    return ("dict", rng.choice([1.0, 12.5, 1e-3, 6.02e23, 1e10]), dims, rng.choice([False, False, True, ["k", "m"]]))
+
+
+def make_env_units(defs):
+    from scinumtools.units import Quantity
+    units = {}
+    for sym, (kind, m, what, prefixes) in defs.items():
+        if kind == "quantity":
+            units[sym] = Quantity(m, what)
+        else:
+            units[sym] = {"magnitude": m, "dimensions": list(what), "prefixes": prefixes}
+    return units
+
+
+def gen_env_cases(cat, rng, syms, prev_dims):
+    groups = cat.by_dimension(cat.linear)
+    cases = []
+    for s_ in syms:
+        dk = cat.dimkey(s_)
+        partners = [t for t in groups[dk] if t != s_]
+        for _ in range(4):
+            iu = [(pick_prefix(cat, rng, s_), s_, rng.choice([(1, 1), (1, 1), (2, 1), (-1, 1)]))]
+            dims = cat.dims_of_items(iu)
+            if partners and rng.random() < 0.6:
+                t = rng.choice(partners)
+                iv = [(pick_prefix(cat, rng, t), t, iu[0][2])]
+            else:
+                iv = expansion(cat, rng, dims) or [(None, "%", (1, 1))]
+            x = pick_value(rng)
+            cases.append(make_case(cat, rng, "env-history", x, iu, iv))
+            cases.append(make_case(cat, rng, "env-history", pick_value(rng), iv, iu))
+        # compound with another unit, against its base expansion; reciprocal
+        t = rng.choice(cat.linear)
+        if t != s_:
+            iu = [(pick_prefix(cat, rng, s_), s_, (1, 1)), (pick_prefix(cat, rng, t), t, (-1, 1))]
+            iv = expansion(cat, rng, cat.dims_of_items(iu))
+            if iv:
+                cases.append(make_case(cat, rng, "env-history", pick_value(rng), iu, iv, rng))
+        if any(d != 0 for d in dk):
+            iu = [(None, s_, (1, 1))]
+            cases.append(make_case(cat, rng, "env-history", pick_value(rng, nonzero=True), iu, expansion(cat, rng, dk, -1)))
+        # refusal: another dimension — in particular the one the symbol had in an earlier environment
+        others = []
+        if s_ in prev_dims and prev_dims[s_] != dk and prev_dims[s_] in groups:
+            others.append(rng.choice(groups[prev_dims[s_]]))
+        others.append(rng.choice(cat.linear))
+        for t in others:
+            dt = cat.dimkey(t)
+            if dt == dk or tuple(-a for a in dt) == dk or t == s_:
+                continue
+            cases.append(make_case(cat, rng, "env-history", pick_value(rng), [(None, s_, (1, 1))], [(pick_prefix(cat, rng, t), t, (1, 1))]))
+            cases.append(make_case(cat, rng, "env-history", pick_value(rng), [(pick_prefix(cat, rng, t), t, (1, 1))], [(None, s_, (1, 1))]))
+    return cases
+
+
+def env_history_stream(ctx, count):
+    """custom units registered through UnitEnvironment, used, the scope closed, and the SAME symbols registered again
+    with another magnitude / dimension: every conversion follows the definition that is in the table now"""
+    from scinumtools.units import UnitEnvironment
+    rng = ctx.rng
+    base_cat = U.Catalog()
+    fixed = [
+        [{"ulen": ("quantity", 1.0, "pc", None), "utim": ("quantity", 1.0, "kyr", None)},
+         {"ulen": ("quantity", 1.0, "kpc", None), "utim": ("dict", 1.0, [0, 1, 0, 0, 0, 0, 0, 0], False)}],
+    ]
+    hists = list(fixed)
+    for _ in range(count):
+        h, syms = [], rng.sample(ENV_SYMBOLS, rng.randint(1, 3))
+        for _ in range(rng.randint(2, 3)):
+            h.append({s_: gen_env_definition(base_cat, rng) for s_ in syms})
+            if rng.random() < 0.3:
+                syms = list(set(syms + [rng.choice(ENV_SYMBOLS)]))
+        hists.append(h)
+    for h in hists:
+        prev_dims = {}
+        ctx.count("stream.env-histories")
+        for defs in h:
+            try:
+                env = UnitEnvironment(make_env_units(defs))
+            except Exception:
+                ctx.count("skipped.environment-not-accepted")
+                continue
+            try:
+                cat = U.Catalog()          # the tables as they are NOW
+                cases = gen_env_cases(cat, rng, list(defs), prev_dims)
+                for c in cases:
+                    c["env"] = {k: list(v) for k, v in defs.items()}
+                run_cases(ctx, cat, cases)
+                for s_ in defs:
+                    prev_dims[s_] = cat.dimkey(s_)
+            finally:
+                env.close()
 
 
 # ------------------------------------------------------------------ histories on one Quantity object
@@ -822,6 +1071,10 @@ def correspond(ctx: Ctx, scale=1):
     cases = gen_cases(ctx, cat, scale)
     run_cases(ctx, cat, cases)
     triple_stream(ctx, cat, (4000 if ctx.tier == "thorough" else 400) * scale)
+    rn = gen_result_numbers(cat, ctx.rng, (1500 if ctx.tier == "thorough" else 200) * scale)
+    run_cases(ctx, cat, rn)
+    result_number_functions(ctx, cat, rn)
+    env_history_stream(ctx, (150 if ctx.tier == "thorough" else 15) * scale)
     quantity_history_stream(ctx, cat, (2000 if ctx.tier == "thorough" else 250) * scale)
     unit_history_stream(ctx, cat, (1500 if ctx.tier == "thorough" else 150) * scale)
     doc_examples(ctx)
